@@ -88,6 +88,11 @@ impl SaslPlainMechanism {
         let _authzid = split.next()?;
         let authcid = split.next()?;
         let passwd = split.next()?;
+        // message = [authzid] NUL authcid NUL passwd: a fourth field means that the password
+        // that was sent has a NUL in it, and only the part before it would be compared
+        if split.next().is_some() {
+            return Some(SaslCode::Auth);
+        }
         Some(self.validate_credential(authcid, passwd))
     }
 
